@@ -947,6 +947,33 @@ func (db *SpecDB) parseContractText(file, pkgPath, text string) error {
 			return fmt.Errorf("%s:%d: unknown directive %q", file, l.ln, word)
 		}
 	}
+	// a clause tagged with a property makes its function part of that property's check
+	for _, c := range db.Contracts {
+		if c.Trusted || c.File != file {
+			continue
+		}
+		add := func(tags []string) {
+			for _, t := range tags {
+				found := false
+				for _, p := range c.Props {
+					if p == t {
+						found = true
+					}
+				}
+				if !found && len(c.Props) > 0 {
+					c.Props = append(c.Props, t)
+				}
+			}
+		}
+		for _, e := range c.Ensures {
+			add(e.Tags)
+		}
+		for _, ls := range c.Loops {
+			for _, e := range ls.Inv {
+				add(e.Tags)
+			}
+		}
+	}
 	// lemma pointer fix: curLemma pointed into slice that may have been reallocated; handled by
 	// only appending clauses right after creation (lemmas are closed by the next directive block).
 	db.Files = append(db.Files, file)
